@@ -5,6 +5,15 @@ clearance) grid.  Each case builds the real PinLattice / Subchannel /
 RoddedRegion and evaluates closed-form counts, adjacency symmetry, neighbour
 counts by type, pin<->subchannel incidence, centroid/adjacency agreement,
 six-fold symmetry and area tiling.
+
+Part `history`: a bundle B built after a bundle A that differs from it in one
+attribute (wall / bypass thicknesses, wire, P/D, clearance, number of ducts,
+SE2 flag; both orders) in ONE process must have, array by array and bit for
+bit, the geometry of B built in a pristine (forked) process.
+
+Part `input`: the pin bundle of the assembly a real Reactor builds from an
+input file (with [Setup] se2geo off and on) has the geometry of a RoddedRegion
+constructed directly from the same dimensions and flag.
 """
 import math
 
@@ -374,6 +383,174 @@ def run_case(c):
     return r
 
 
+# ----------------------------------------------------------------------
+# part `history`: the geometry of a bundle does not depend on which bundles the process built before
+VARIANTS = {
+    'walls':   (dict(duct_t=[0.002, 0.003, 0.0035], byp_t=[0.0025, 0.004]),
+                dict(duct_t=[0.003, 0.002, 0.0045], byp_t=[0.004, 0.0025])),
+    'wire':    (dict(wire=True), dict(wire=False)),
+    'pd':      (dict(pd=1.20), dict(pd=1.25)),
+    'clr':     (dict(clearance='tight'), dict(clearance='loose')),
+    'ducts':   (dict(ducts=2), dict(ducts=3)),
+    'se2':     (dict(se2=False), dict(se2=True)),
+}
+
+
+def history_cases(tier):
+    out = []
+    rings = (2, 3, 5) if tier == 'quick' else (2, 3, 4, 5, 8, 12)
+    for n in rings:
+        for ducts in (1, 2, 3):
+            for var in sorted(VARIANTS):
+                if var == 'ducts' and ducts != 2:
+                    continue
+                if var == 'walls' and ducts == 1 and tier == 'quick':
+                    continue
+                for first in (0, 1):
+                    out.append({'probe': 'history', 'rings': n, 'ducts': ducts, 'vary': var, 'first': first})
+    return out
+
+
+def _build(n, kw):
+    import dassh
+    k = dict(pd=1.20, ducts=2, wire=True, clearance='tight', se2=False,
+             duct_t=[0.002, 0.003, 0.0035], byp_t=[0.0025, 0.004])
+    k.update(kw)
+    se2 = k.pop('se2')
+    nd = k['ducts']
+    # the INNER flat-to-flat of the first duct is the same for every variant (pins and inner can identical,
+    # only what lies outside differs): outer flat-to-flat = inner + 2 x (walls + bypass gaps)
+    thick = sum(k['duct_t'][:nd]) + sum(k['byp_t'][:nd - 1])
+    dsn = S.design(n, pd=k['pd'], ducts=nd, wire=k['wire'], clearance=k['clearance'],
+                   oftf=round(0.012 * n + 0.02 + 2.0 * thick, 9),
+                   duct_t=k['duct_t'][:nd], byp_t=k['byp_t'])
+    cool = dassh.Material('sodium_se2anl_425')
+    duct = dassh.Material('ht9_se2anl_425')
+    return dassh.RoddedRegion('c08', n, dsn['pin_pitch'], dsn['pin_diameter'], dsn['wire_pitch'],
+                              dsn['wire_diameter'], dsn['clad_thickness'], dsn['duct_ftf'], 1.0 * n, cool, duct,
+                              None, 'CTD', 'CTD', 'CTD', 'DB', None, None, 0.05, None, 'clockwise', 1.0, se2)
+
+
+def _geometry(rr):
+    """every numeric array of the region's geometry, flattened: name -> bytes"""
+    out = {}
+
+    def put(name, v):
+        if isinstance(v, dict):
+            for k in sorted(v, key=str):
+                put(name + '.' + str(k), v[k])
+        elif isinstance(v, (list, tuple)):
+            if all(isinstance(x, (int, float, np.number)) for x in v):
+                out[name] = np.asarray(v, dtype=float).tobytes()
+            else:
+                for i, x in enumerate(v):
+                    put('%s[%d]' % (name, i), x)
+        elif isinstance(v, np.ndarray) and v.dtype != object:
+            out[name] = v.tobytes()
+        elif isinstance(v, (int, float, np.number)) and not isinstance(v, bool):
+            out[name] = np.asarray(float(v)).tobytes()
+    for nm in ('params', 'bundle_params', 'bypass_params', 'duct_params', 'd', 'L', 'ht', 'area', 'total_area',
+               'n_pin', 'n_duct', 'n_bypass', 'duct_ftf'):
+        if hasattr(rr, nm):
+            put(nm, getattr(rr, nm))
+    sc = rr.subchannel
+    for nm in ('xy', 'type', 'sc_adj', 'pin_adj', 'rev_pin_adj', 'n_sc'):
+        if hasattr(sc, nm):
+            put('subchannel.' + nm, getattr(sc, nm))
+    put('pin_lattice.xy', rr.pin_lattice.xy)
+    return out
+
+
+def _seq(n, kws):
+    rr = None
+    for kw in kws:
+        rr = _build(n, kw)
+    return _geometry(rr)
+
+
+def run_history(c):
+    """B built after A (A differs from B in one attribute) in one process == B built in a pristine
+    process, array by array, bit for bit"""
+    from .c16 import in_child
+    r = new_result()
+    V = r['violations']
+    va = VARIANTS[c['vary']]
+    A = dict(ducts=c['ducts'])
+    A.update(va[c['first']])
+    B = dict(ducts=c['ducts'])
+    B.update(va[1 - c['first']])
+    ref = in_child(_seq, c['rings'], [B], budget=300)
+    got = in_child(_seq, c['rings'], [A, B], budget=300)
+    r['transitions'] = 3
+    r['states'] = 2
+    r['traces'] = 1
+    r['nontrivial'] = True
+    if ref[0] != 'ok' or got[0] != 'ok':
+        V.append(violation('history-construction', c, 'construction failed: %s / %s' % (ref[:3], got[:3]),
+                           site=(ref if ref[0] != 'ok' else got)[-1] if (ref if ref[0] != 'ok' else got)[0] == 'exc'
+                           else None))
+        r['outcome'] = 'failed'
+        return r
+    ref, got = ref[1], got[1]
+    for k in sorted(ref):
+        if k not in got or got[k] != ref[k]:
+            V.append(violation('depends-on-history', dict(c, field=k),
+                               'bundle geometry %s differs when another bundle (other %s) was built first in the '
+                               'same process' % (k, c['vary']), None, None, 0.0, site='field:' + k.split('[')[0]))
+            break
+    r['outcome'] = 'ok' if not V else 'violation'
+    return r
+
+
+# ----------------------------------------------------------------------
+# part `input`: the bundle the input file describes is the bundle that is built
+def input_cases(tier):
+    out = []
+    for n in ((2, 3, 5) if tier == 'quick' else (2, 3, 4, 5, 8)):
+        for ducts in (1, 2):
+            for se2 in (False, True):
+                for wire in (True, False):
+                    out.append({'probe': 'input', 'rings': n, 'ducts': ducts, 'se2': se2, 'wire': wire})
+    return out
+
+
+def run_input(c):
+    """bundle of the assembly a real Reactor builds from an input file ([Setup] se2geo as stated) ==
+    RoddedRegion constructed directly from the same dimensions and flag, geometry array by array"""
+    import dassh
+    r = new_result()
+    V = r['violations']
+    n, nd = c['rings'], c['ducts']
+    dsn = S.design(n, pd=1.2, ducts=nd, wire=c['wire'], clearance='mid', oftf=0.012 * n + 0.03,
+                   duct_t=[0.002, 0.003][:nd], byp_t=[0.0025])
+    scn = S.single(dsn, 1.0 * n, length=0.1, power={'rings': n, 'nduct': nd, 'cells': [0.0, 0.1], 'q': 100.0,
+                                                     'pins': 'uniform'}, setup={'se2geo': c['se2']})
+    try:
+        with S.Built(scn) as b:
+            got = _geometry(b.reactor().assemblies[0].rodded)
+        cool = dassh.Material('sodium_se2anl_425')
+        duct = dassh.Material('ht9_se2anl_425')
+        rr = dassh.RoddedRegion('c08', n, dsn['pin_pitch'], dsn['pin_diameter'], dsn['wire_pitch'],
+                                dsn['wire_diameter'], dsn['clad_thickness'], dsn['duct_ftf'], 1.0 * n, cool, duct,
+                                None, 'CTD', 'CTD', 'CTD', 'DB', None, None, 0.05, None, 'clockwise', 1.0, c['se2'])
+        ref = _geometry(rr)
+    except BaseException as e:
+        V.append(violation('input-construction', c, '%s: %s' % (type(e).__name__, str(e)[:200]), site=site_of(e)))
+        r['outcome'] = 'failed'
+        return r
+    r['states'], r['transitions'], r['traces'], r['nontrivial'] = 2, 2, 1, True
+    for k in sorted(ref):
+        if k.startswith(('params', 'bundle_params', 'bypass_params', 'duct_params', 'd.', 'L', 'subchannel',
+                         'pin_lattice', 'n_')) and k in got and got[k] != ref[k]:
+            V.append(violation('input-bundle-differs', dict(c, field=k),
+                               'geometry %s of the bundle built from the input file ([Setup] se2geo = %s) differs from '
+                               'the bundle of the same dimensions and flag constructed directly' % (k, c['se2']),
+                               None, None, 0.0, site='field:' + k.split('[')[0]))
+            break
+    r['outcome'] = 'ok' if not V else 'violation'
+    return r
+
+
 def main(run):
     run.rule = ('every (rings 2..20, ducts 1..3, SE2 flag, P/D-wire-clearance) tuple of the stated grid; '
                 'a case is non-trivial when the real Subchannel map was built (all are distinct inputs)')
@@ -382,11 +559,14 @@ def main(run):
     cs = cases(run.tier)
     run.check_determinism(run_case, cs[0])
     run.explore('bundle', cs, run_case, budget_s=300, chunksize=1)
+    run.explore('history', history_cases(run.tier), run_history, budget_s=600, chunksize=2)
+    run.explore('input', input_cases(run.tier), run_input, budget_s=300, chunksize=2)
 
 
 def replay(body):
     from ..run import guarded
-    r = guarded(run_case, body['scenario'], 600)
+    fn = {'history': run_history, 'input': run_input}.get(body['scenario'].get('probe'), run_case)
+    r = guarded(fn, body['scenario'], 600)
     for v in r['violations']:
         print('VIOLATION property=C08 replay=(inline) kind=%s %s' % (v['kind'], v['what']))
     print('outcome', r['outcome'], r.get('info'))
